@@ -358,5 +358,129 @@ func mayReturnNil(w *World) map[*ssa.Function]map[int]bool {
 			}
 		}
 	}
+	// second derivation: constructors / combinators that can return a nil *T although every
+	// pointer they receive is non-nil (a result variable that is only assigned on some paths):
+	// abstract evaluation in the ordinary environment with non-nil pointer parameters.
+	for changed := true; changed; {
+		changed = false
+		a := newAE(w, envNone, "quick")
+		a.missFns = may
+		for _, fn := range w.Funcs {
+			if fn.Parent() != nil || len(fn.Blocks) == 0 {
+				continue
+			}
+			res := fn.Signature.Results()
+			hasT := false
+			for i := 0; i < res.Len(); i++ {
+				if isT(res.At(i).Type()) {
+					hasT = true
+				}
+			}
+			if !hasT {
+				continue
+			}
+			switch pkgShort(fn) {
+			case "cmd/rbs2json", "cmd/c2json":
+				continue
+			}
+			args := make([]Val, len(fn.Params))
+			for i, prm := range fn.Params {
+				if _, ok := prm.Type().Underlying().(*types.Pointer); ok {
+					args[i] = Val{k: kNonNil}
+				}
+			}
+			s := a.evalFunc(fn, args)
+			for p := range s.nilPos {
+				if !isT(fn.Signature.Results().At(p).Type()) {
+					continue
+				}
+				if may[fn] == nil {
+					may[fn] = map[int]bool{}
+				}
+				if !may[fn][p] {
+					may[fn][p] = true
+					changed = true
+				}
+			}
+		}
+	}
+	// closure: a function that hands on the result of such a function can return nil too
+	for changed := true; changed; {
+		changed = false
+		for _, fn := range w.Funcs {
+			if fn.Parent() != nil {
+				continue
+			}
+			for _, b := range fn.Blocks {
+				rt, ok := b.Instrs[len(b.Instrs)-1].(*ssa.Return)
+				if !ok {
+					continue
+				}
+				for ri, rv := range rt.Results {
+					if ri >= fn.Signature.Results().Len() || !isT(fn.Signature.Results().At(ri).Type()) {
+						continue
+					}
+					var src *ssa.Call
+					pos := 0
+					switch x := rv.(type) {
+					case *ssa.Call:
+						src = x
+					case *ssa.Extract:
+						if c, ok := x.Tuple.(*ssa.Call); ok {
+							src, pos = c, x.Index
+						}
+					}
+					if src == nil {
+						continue
+					}
+					if cal := src.Call.StaticCallee(); cal != nil && may[cal][pos] {
+						if nilCheckedTwin(w, src, b) {
+							continue // `if f(x) == nil { … }; return f(x)` on a pure accessor
+						}
+						if may[fn] == nil {
+							may[fn] = map[int]bool{}
+						}
+						if !may[fn][ri] {
+							may[fn][ri] = true
+							changed = true
+						}
+					}
+				}
+			}
+		}
+	}
 	return may
+}
+
+// nilCheckedTwin: block b is only reached when a call with the same canonical expression
+// as src (a pure accessor with the same arguments) was tested to be non-nil.
+func nilCheckedTwin(w *World, src *ssa.Call, b *ssa.BasicBlock) bool {
+	c := &ixCtx{w: w, pure: map[*ssa.Function]int8{}, predSumm: map[*ssa.Function]map[string]int{}, inProg: map[*ssa.Function]bool{}}
+	cal := src.Call.StaticCallee()
+	if cal == nil || !c.isPure(cal, 0) {
+		return false
+	}
+	key := c.exprKey(src, nil, 0)
+	for cur := b; cur != nil && cur.Idom() != nil; cur = cur.Idom() {
+		d := cur.Idom()
+		iff, ok := d.Instrs[len(d.Instrs)-1].(*ssa.If)
+		if !ok || len(cur.Preds) != 1 || cur.Preds[0] != d {
+			continue
+		}
+		bo, ok := iff.Cond.(*ssa.BinOp)
+		if !ok || (bo.Op != token.EQL && bo.Op != token.NEQ) {
+			continue
+		}
+		k, isC := bo.Y.(*ssa.Const)
+		if !isC || !k.IsNil() {
+			continue
+		}
+		if c.exprKey(bo.X, nil, 0) != key {
+			continue
+		}
+		if (bo.Op == token.EQL && d.Succs[1] == cur) || (bo.Op == token.NEQ && d.Succs[0] == cur) {
+			return true
+		}
+	}
+	return false
 }
